@@ -376,7 +376,19 @@ ADDENDA2 = {
            "content outside the cutoff box, mean = requested offset, kernel / power-law shaping of the noise spectrum - also for the regenerated "
            "generators with normalisation off.",
     "C20": " A successful call returns exactly the configured shape (Properties/C20_shape.lean).",
+    "C08": " ASSEMBLED (Properties/C08_assembled.lean): the regenerated whole step (every order, every flag, stored contour coefficients) of "
+           "the generic convection / gradient-norm / nonlinear / polynomial / linear steppers, Burgers, KdV (every mixing flag), KS, "
+           "KS-conservative, Fisher-KPP, NS-vorticity and the five linear classes commutes with every whole-cell translation, n steps, in "
+           "physical space, all D, N >= 1, any state; the Kolmogorov-forced vorticity stepper exactly with the shifts that leave the forcing "
+           "invariant (N | m*s_1).",
+    "C12": " Every order (Properties/C12_orders.lean): the laminar recurrences for ETDRK1-4 with arbitrary, exact and stored coefficients, and "
+           "the 3-D ETDRK2 case.",
+    "C14": " repeat with constant / sequenced aux is the fold (a sequence of the wrong length is refused), RepeatedStepper.dt = n*dt "
+           "(Properties/C14_aux.lean, on the regenerated loops).",
 }
+
+
+ADDENDA3 = {}   # (reserved)
 
 
 def main():
@@ -394,7 +406,7 @@ def main():
                 "evidence_file": f"evidence/{pid}.json",
                 "replay_cmd_template": "/venv/bin/python harness/replay.py {path}",
                 "engine": "lean-proof+correspondence",
-                "level_claimed": {"category": "proof", "text": c["text"] + ADDENDA.get(pid, "") + ADDENDA2.get(pid, ""), "design_ref": c["design_ref"]},
+                "level_claimed": {"category": "proof", "text": c["text"] + ADDENDA.get(pid, "") + ADDENDA2.get(pid, "") + ADDENDA3.get(pid, ""), "design_ref": c["design_ref"]},
                 "level_note": c.get("note", NOTE_COMMON),
                 "technique": c["technique"],
             })
